@@ -566,7 +566,7 @@ class Text(Input):
     def _clean(self, value):
         try:
             fvalue = float(value)
-            if fvalue == -999:
+            if fvalue == -999 or fvalue > 1e30:
                 fvalue = np.nan
             return fvalue
         except ValueError:
